@@ -2,6 +2,7 @@ package lzwork
 
 import (
 	"bufio"
+	"sync"
 	"bytes"
 	"errors"
 	"fmt"
@@ -73,7 +74,17 @@ func compressRaw(in []byte, crc bool, parts []int) (res CompressResult) {
 	}()
 	off := 0
 	for i, k := range parts {
-		n, err := w.Write(in[off : off+k])
+		var n int
+		var err error
+		if i%2 == 1 && k > 0 {
+			// every other piece reaches the Writer the way a relay feeds it: io.Copy from a plain io.Reader (which uses the
+			// Writer's ReadFrom when it has one)
+			var n64 int64
+			n64, err = io.Copy(w, struct{ io.Reader }{bytes.NewReader(in[off : off+k])})
+			n = int(n64)
+		} else {
+			n, err = w.Write(in[off : off+k])
+		}
 		if n != k || err != nil {
 			res.WriteErr = fmt.Sprintf("Write #%d of %d bytes at offset %d returned (%d, %v)", i, k, off, n, err)
 			return res
@@ -86,6 +97,47 @@ func compressRaw(in []byte, crc bool, parts []int) (res CompressResult) {
 	res.CloseErr = w.Close()
 	res.Out = buf.Bytes()
 	return res
+}
+
+// CompressAligned compresses the inputs in goroutines of their own (own Writer, own destination) and lines the
+// goroutines up in front of Close, so that the Close calls - where header, size and checksum are put together - run at
+// the same moment. What each goroutine gets must be what it would get alone.
+func CompressAligned(inputs [][]byte, crc bool) []CompressResult {
+	out := make([]CompressResult, len(inputs))
+	var ready, done sync.WaitGroup
+	start := make(chan struct{})
+	ready.Add(len(inputs))
+	done.Add(len(inputs))
+	for g := range inputs {
+		go func(g int) {
+			defer done.Done()
+			res := &out[g]
+			released := false
+			defer func() {
+				if r := recover(); r != nil {
+					v := vrt.PanicViolation(r, debug.Stack())
+					res.Panic = &v
+					if !released {
+						ready.Done()
+					}
+				}
+			}()
+			var buf bytes.Buffer
+			w := lzhuf.NewWriter(&buf, crc)
+			if n, err := w.Write(inputs[g]); n != len(inputs[g]) || err != nil {
+				res.WriteErr = fmt.Sprintf("Write of %d bytes returned (%d, %v)", len(inputs[g]), n, err)
+			}
+			released = true
+			ready.Done()
+			<-start
+			res.CloseErr = w.Close()
+			res.Out = buf.Bytes()
+		}(g)
+	}
+	ready.Wait()
+	close(start)
+	done.Wait()
+	return out
 }
 
 // failingWriter accepts `room` bytes and fails from then on (a link that drops during a transfer).
